@@ -14,6 +14,7 @@ from ..facts import FactFlow, entails
 from ..harness import Harness
 from ..interp import Raised, StepLimit
 from ..normalize import inline_helpers
+from ..roles import bits_name
 from ..models import ccsds_bytes, file_source, socket_source, source_externals
 from ..program import AnchorMissing
 
@@ -91,7 +92,7 @@ def length_arithmetic(ctx: Ctx, r: Roles, rule: str):
     except Unsupported as e:
         ctx.unknown(rule, site, f"packet length is not affine: {e}")
         return
-    calls = [a for a in n_aff.atoms() if a.startswith("call:_extract_bits(")]
+    calls = [a for a in n_aff.atoms() if a.startswith(f"call:{bits_name(r.prog)}(")]
     if len(calls) != 1 or n_aff.terms.get(calls[0]) != 1 or len(n_aff.terms) != 1:
         ctx.unknown(rule, site, f"packet length {n_aff!r} is not <length field> + constant")
         return
@@ -102,7 +103,7 @@ def length_arithmetic(ctx: Ctx, r: Roles, rule: str):
     # the call: window and argument
     call = None
     for n in walk_local(fi.node):
-        if isinstance(n, ast.Call) and (dotted(n.func) or "").endswith("_extract_bits") and len(n.args) == 3:
+        if isinstance(n, ast.Call) and (dotted(n.func) or "").split(".")[-1] == bits_name(r.prog) and len(n.args) == 3:
             call = n
     if call is None:
         ctx.unknown(rule, f"{GEN}::length-read", "length read not found")
@@ -373,10 +374,21 @@ def reader_bound(ctx: Ctx, r: Roles, rule: str):
     fi = r.fi
     # the reader variable: callee of a call whose result is appended to B
     reader = None
+    appended = set()
     for n in walk_local(r.loop):
-        if isinstance(n, ast.Call) and isinstance(n.func, ast.Name) and n.func.id not in ("len", "_extract_bits", "RawPacketData",
-                                                                                             "_print_progress"):
-            reader = n.func.id
+        if isinstance(n, ast.AugAssign) and dotted(n.target) == r.B and isinstance(n.op, ast.Add):
+            if isinstance(n.value, ast.Name):
+                appended.add(n.value.id)
+            elif isinstance(n.value, ast.Call) and isinstance(n.value.func, ast.Name):
+                reader = n.value.func.id
+    for n in walk_local(r.loop):
+        tgt = val = None
+        if isinstance(n, ast.Assign) and len(n.targets) == 1 and isinstance(n.targets[0], ast.Name):
+            tgt, val = n.targets[0].id, n.value
+        elif isinstance(n, ast.NamedExpr):
+            tgt, val = n.target.id, n.value
+        if tgt in appended and isinstance(val, ast.Call) and isinstance(val.func, ast.Name):
+            reader = val.func.id
     if reader is None:
         ctx.unknown(rule, f"{GEN}::reader-bound", "reader call not found")
         return
